@@ -382,6 +382,80 @@ def file_keyed_unconditional(chk, F, rule):
     return n
 
 
+def file_valued_unconditional(chk, F, rule):
+    """R08i: a map that is keyed by something else but whose values list FileIds (name -> files buckets) holds per-file state too:
+    remove(file_id) must look at it on every path, except a path on which the lookup of the file in a FileId-keyed map missed (the
+    file was never indexed).  An early exit of some other pruning step must not skip it."""
+    import cfgutil as _c
+    import dataflow as _d
+    idx = index_types(F)
+    n = 0
+    for X, items in sorted(idx.items()):
+        if X == DBINDEX:
+            continue
+        adt = F.adts.get(X)
+        b = F.bodies.get(items["remove"])
+        if adt is None or b is None:
+            continue
+        types = adt["_types"]
+        succ = b.succ_map()
+        rets = set(b.returns())
+        fkeyed = set()
+        for f in adt["variants"][0]["fields"]:
+            t = types[f["ty"]]
+            if t[2] == "adt" and t[3].endswith(("::HashMap", "::BTreeMap")) and t[4] and types[t[4][0]][0].endswith("vfs::file_id::FileId"):
+                fkeyed.add(f["name"])
+        # None edges of lookups in FileId-keyed maps
+        none_targets = set()
+        for bi, blk in enumerate(b.blocks):
+            t = blk[2]
+            if t[0] != "sw" or t[1][0] not in ("c", "m") or len(t[1][1]) != 1:
+                continue
+            for d in _d.def_sites(b).get(t[1][1][0], []):
+                if not (d[0] == "stmt" and d[3][0] == "disc"):
+                    continue
+                pl = d[3][1]
+                for r in _d.roots(b, pl[0]):
+                    if r[0] != "call":
+                        continue
+                    c = b.blocks[r[1]][2][1]
+                    nm = c.get("r") or c.get("f") or ""
+                    if not nm.endswith(("::remove", "::get", "::get_mut")) or not c["a"]:
+                        continue
+                    la = _d.operand_local(c["a"][0])
+                    for r2 in _d.roots(b, la) if la is not None else ():
+                        if r2[0] == "place" and any(isinstance(e, (list, tuple)) and e[0] == "f" and e[2] in fkeyed for e in r2[2]):
+                            tg = [tb for v, tb in t[2] if v == 0]
+                            none_targets.add(tg[0] if tg else t[3])
+        for f in adt["variants"][0]["fields"]:
+            t = types[f["ty"]]
+            if t[2] != "adt" or not t[3].endswith(("::HashMap", "::BTreeMap")) or len(t[4]) < 2:
+                continue
+            if types[t[4][0]][0].endswith("vfs::file_id::FileId") or "vfs::file_id::FileId" not in types[t[4][1]][0]:
+                continue
+            if "InFiled<" in types[f["ty"]][0]:
+                continue      # R08e
+            n += 1
+            W = set()
+            for bi, blk in enumerate(b.blocks):
+                if blk[0]:
+                    continue
+                for st in blk[1]:
+                    if st[0] == "a" and st[2][0] == "ref" and st[2][2][0] == 1 and \
+                            any(isinstance(e, list) and e[0] == "f" and e[2] == f["name"] for e in st[2][2][1:]):
+                        W.add(bi)
+            key = "%s.%s" % (short(X), f["name"])
+            if not W:
+                continue  # R08a reports a field that is never touched
+            p = _c.paths_avoiding(succ, 0, rets, W | none_targets)
+            chk.check(p is None, rule, key,
+                      "%s::remove can return without looking at `%s` (a map whose values list file ids) although the file was found in the "
+                      "index: an early exit of another pruning step skips it, the removed file's id stays listed there and the bucket grows by "
+                      "one entry on every re-submission of the file" % (short(X), f["name"]), b.loc(), witness={"path_blocks": p},
+                      sample={"rule": rule, "field": key, "verdict": "looked at on every path on which the file was indexed"})
+    return n
+
+
 def infiled_filtered(chk, F, rule):
     """R08e: a field whose keys or values carry their own file attribution (InFiled<..>) mixes entries of several files under one
     key, so remove(file_id) must filter it with a `retain` that looks at the file id -- and when that retain sits in the loop
@@ -766,7 +840,7 @@ def prune_emptied(chk, F, rule):
                 if n.endswith(("::next", "Try>::branch", "::unwrap", "DerefMut>::deref_mut", "IntoIterator>::into_iter", "::by_ref")) and c["a"] and \
                         inner_value(b, c["a"][0], depth + 1):
                     return True
-            if r[0] == "place" and r[2] and isinstance(r[2][0], (list, tuple)) and r[2][0][0] == "d" and r[2][0][1] in ("Some", "Continue"):
+            if r[0] == "place" and r[1] != l and r[1] != 1:
                 if inner_value(b, ["c", [r[1]]], depth + 1):
                     return True
         return False
@@ -774,6 +848,48 @@ def prune_emptied(chk, F, rule):
     def rk(b, op):
         l = _d.operand_local(op)
         return frozenset(_d.roots(b, l)) if l is not None else frozenset()
+
+    def keyed_lookup(b, op, depth=0):
+        """the get_mut(map, key) call the inner value was obtained from, if it is a keyed lookup"""
+        l = _d.operand_local(op)
+        if l is None or depth > 6:
+            return None
+        for r in _d.roots(b, l):
+            if r[0] == "call":
+                c = b.blocks[r[1]][2][1]
+                n = _cname(c)
+                if n.endswith("::get_mut") and len(c["a"]) >= 2:
+                    return c
+                if n.endswith(("::next", "Try>::branch", "::unwrap", "DerefMut>::deref_mut", "IntoIterator>::into_iter", "::by_ref")) and c["a"]:
+                    x = keyed_lookup(b, c["a"][0], depth + 1)
+                    if x is not None:
+                        return x
+            if r[0] == "place" and r[1] != l and r[1] != 1:
+                x = keyed_lookup(b, ["c", [r[1]]], depth + 1)
+                if x is not None:
+                    return x
+        return None
+
+    def field_of(b, op):
+        l = _d.operand_local(op)
+        out = set()
+        for r in _d.roots(b, l) if l is not None else ():
+            if r[0] == "place":
+                out |= {e[2] for e in r[2] if isinstance(e, (list, tuple)) and e[0] == "f" and len(e) > 2}
+        return out
+
+    def key_roots(b, op):
+        """roots of a key operand, looking through the `&key` temporary"""
+        l = _d.operand_local(op)
+        out = set()
+        for r in _d.roots(b, l) if l is not None else ():
+            if r[0] == "place" and not r[2]:
+                out |= set(_d.roots(b, r[1]))
+            elif r[0] == "place":
+                out.add((r[0], r[1], tuple(e for e in r[2] if e != "*")))
+            else:
+                out.add(r)
+        return frozenset(out)
     n = 0
     for X, items in sorted(idx.items()):
         b = F.bodies.get(items.get("remove", ""))
@@ -791,6 +907,17 @@ def prune_emptied(chk, F, rule):
             after = _c.reachable(succ, bb)
             emp = [x for x, cc in b.calls() if _cname(cc).endswith("::is_empty") and cc["a"] and rk(b, cc["a"][0]) == root and x in after]
             pruned = any(any(_cname(cc).endswith("::remove") and y in _c.reachable(succ, x) for y, cc in b.calls()) for x in emp)
+            lk = keyed_lookup(b, c["a"][0])
+            if pruned and lk is not None:
+                # keyed lookup: the key that is dropped must be the key whose entry was emptied (same map, same key)
+                mf, kr = field_of(b, lk["a"][0]), key_roots(b, lk["a"][1])
+                same = [cc for x in emp for y, cc in b.calls() if _cname(cc).endswith("::remove") and y in _c.reachable(succ, x)
+                        and len(cc["a"]) >= 2 and field_of(b, cc["a"][0]) & mf and key_roots(b, cc["a"][1]) == kr]
+                chk.check(bool(same), rule, key + ":same-key",
+                          "%s::remove empties an inner collection of the entry it looked up (retain + is_empty) but the removal that follows drops "
+                          "a different key of that map: the emptied entry itself is only unlinked, stays in the map and one more is left behind "
+                          "on every re-submission of the file" % short(X), b.loc(c["l"]),
+                          sample={"rule": rule, "site": key, "verdict": "the emptied entry's own key is removed"})
             chk.check(bool(emp) and pruned, rule, key,
                       "%s::remove filters an inner collection with retain and never tests it for emptiness afterwards (no is_empty on it followed by a "
                       "removal of the key): an emptied list stays in the map, and code that asks whether the key is present (`get(..).is_some()`) "
@@ -825,6 +952,9 @@ def run_c08(chk, F, tier):
     chk.floor("update entry points", n, 3)
     chk.rule("R08d", "maps keyed by FileId are reached by remove(file_id) on every path")
     n = file_keyed_unconditional(chk, F, "R08d")
+    chk.rule("R08i", "maps whose values list FileIds are looked at by remove(file_id) on every path on which the file was indexed")
+    ni = file_valued_unconditional(chk, F, "R08i")
+    chk.floor("maps with FileId-listing values", ni, 1)
     chk.floor("FileId-keyed index maps", n, 12)
     chk.rule("R08e", "InFiled-attributed entries are filtered by file id on every iteration of remove's loop")
     n = infiled_filtered(chk, F, "R08e")
